@@ -37,16 +37,27 @@ func settle(base int, patience time.Duration) int {
 	return n
 }
 
-func synParse(p *grammar.Parser, text string) (cls string) {
-	defer func() {
-		if e := recover(); e != nil {
-			cls = "panic"
+func synParse(p *grammar.Parser, text string) string {
+	// in a goroutine with a watchdog: a lexer that never delivers its next token blocks the parser for ever
+	done := make(chan string, 1)
+	go func() {
+		cls := "accept"
+		defer func() {
+			if e := recover(); e != nil {
+				cls = "panic"
+			}
+			done <- cls
+		}()
+		if err := p.Parse(grammar.NewLLk(text, 1), &semantic.Statement{}); err != nil {
+			cls = "reject"
 		}
 	}()
-	if err := p.Parse(grammar.NewLLk(text, 1), &semantic.Statement{}); err != nil {
-		return "reject"
+	select {
+	case cls := <-done:
+		return cls
+	case <-time.After(10 * time.Second):
+		return "hang"
 	}
-	return "accept"
 }
 
 func populated() storage.Store {
@@ -101,6 +112,14 @@ func (f *fuzzer) one(family, text string) {
 	}
 	f.nfull++
 	syn := synParse(f.plain, text)
+	if syn == "hang" {
+		// the parser of this fuzzer is stuck in that call: a fresh one for the texts to come
+		f.hist["hang"]++
+		f.plain, _ = grammar.NewParser(grammar.BQL())
+		f.fam[family]++
+		f.g.emit(fmt.Sprintf("F fam=%s text=%s %s", family, hx(text), runesLine(text)), "hang hang hang")
+		return
+	}
 	var out []string
 	for _, st := range []storage.Store{f.empty, f.full} {
 		base := runtime.NumGoroutine()
@@ -221,6 +240,9 @@ func cmdFuzz(args []string) error {
 	// A. every token sequence up to maxLen
 	var rec func(prefix []lexer.TokenType, depth int)
 	rec = func(prefix []lexer.TokenType, depth int) {
+		if lexHangs >= 4 || f.hist["hang"] >= 4 {
+			return // each costs a watchdog period; a few are enough to report
+		}
 		if text, err := renderTokens(prefix, texts); err == nil {
 			f.one("tokens", text)
 		}
